@@ -249,7 +249,68 @@ def provenance(S):
         S.static_vc("bounded:provenance", "hypnotoad.core.mesh:BoutMesh.writeGridfile", "two generations identical; grid regenerated from its embedded inputs identical", False, detail=repr((res or {}).get("problems", txt[-600:]))[:1500], kind="bounded-native", model=res or dict(log=txt[-600:]))
 
 
+def embedding_block(S):
+    """The statements of BoutMesh.writeGridfile that embed the inputs (sliced mechanically:
+    from `inputs_string = ...` to the write of the geqdsk text), run on option sets whose values
+    are distinct tokens: the YAML holds EVERY key of the three evaluated option sets with its
+    value, mesh options taking precedence, and the geqdsk text is written unchanged."""
+    import types
+
+    import yaml
+
+    from hypnotoad.core import mesh as M
+
+    src = textwrap.dedent(inspect.getsource(M.BoutMesh.writeGridfile))
+    fdef = ast.parse(src).body[0]
+    body = [n for n in fdef.body if isinstance(n, ast.With)][0].body
+    start = next((i for i, st in enumerate(body) if isinstance(st, ast.Assign) and any(isinstance(t, ast.Name) and t.id == "inputs_string" for t in st.targets)), None)
+    end = next((i for i, st in enumerate(body) if isinstance(st, ast.If) and "geqdsk_input" in ast.unparse(st.test)), None)
+    ok_slice = start is not None and end is not None and end > start
+    S.static_vc("embedding", "hypnotoad.core.mesh:BoutMesh.writeGridfile", "the input-embedding statements of writeGridfile are found", ok_slice, kind="ast-frame")
+    if not ok_slice:
+        return
+    f = ast.FunctionDef(name="_embed", args=ast.arguments(posonlyargs=[], args=[ast.arg(arg="self"), ast.arg(arg="f")], kwonlyargs=[], kw_defaults=[], defaults=[]), body=body[start : end + 1], decorator_list=[], type_params=[])
+    mod = ast.Module(body=[f], type_ignores=[])
+    ast.fix_missing_locations(mod)
+    loc = {}
+    exec(compile(mod, "<vc:writeGridfile[embedding]>", "exec"), M.__dict__, loc)
+    S.extraction.append(dict(function="BoutMesh.writeGridfile[embedding]", sliced="statements %d..%d of the with-block (inputs_string ... geqdsk text), compiled as a function of (self, f); nothing dropped" % (start, end)))
+
+    class Opts(dict):
+        def as_table(self):
+            return "\n".join("%s = %r" % kv for kv in sorted(self.items()))
+
+    eqo = Opts(shared=1.5, eq_only="e", expr_default=0.25, flag=True, lst=[1.0, 2.5])
+    nono = Opts(nonorthogonal_x=0.125, nonorthogonal_none=None)
+    mesho = Opts(shared=1.5, mesh_only=7, flag=True)
+    text = "  EFIT  line one\n 1.000000000E+00-2.5E-01\nlast line without newline"
+    me = types.SimpleNamespace(equilibrium=types.SimpleNamespace(user_options=eqo, nonorthogonal_options=nono, geqdsk_input=text, geqdsk_filename="g012345"), user_options=mesho, version="v", git_hash=None, git_diff=None)
+    out, attrs = {}, {}
+    fh = types.SimpleNamespace(write=lambda k, v: out.__setitem__(k, v), write_file_attribute=lambda k, v: attrs.__setitem__(k, v))
+    bad = []
+    try:
+        loc["_embed"](me, fh)
+        back = yaml.safe_load(out.get("hypnotoad_inputs_yaml", ""))
+        want = dict(eqo)
+        want.update(nono)
+        want.update(mesho)
+        if back != want:
+            bad.append(dict(problem="YAML does not load back to the union of the three evaluated option sets", got=repr(back), want=repr(want)))
+        if out.get("hypnotoad_input_geqdsk_file_contents") != text:
+            bad.append(dict(problem="geqdsk text not embedded byte for byte"))
+        for k in list(eqo) + list(nono) + list(mesho):
+            if k not in out.get("hypnotoad_inputs", ""):
+                bad.append(dict(problem="option %s missing from the human-readable table" % k))
+        if attrs.get("hypnotoad_geqdsk_filename") != "g012345":
+            bad.append(dict(problem="geqdsk file name attribute missing"))
+    except Exception as e:
+        bad.append(dict(problem="embedding block raised %r" % e))
+    S.static_vc("embedding", "hypnotoad.core.mesh:BoutMesh.writeGridfile", "hypnotoad_inputs_yaml loads back (safe_load) to every evaluated option of equilibrium, non-orthogonal and mesh sets; geqdsk text and file name embedded unchanged", not bad, detail=repr(bad[:3]), kind="native", model=bad[0] if bad else None)
+
+
 def build(S):
+    embedding_block(S)
+    S.under_contract("hypnotoad.core.mesh:BoutMesh.writeGridfile")
     S.under_contract(*TARGETS)
     S.under_contract("hypnotoad.scripts.hypnotoad_recreate_inputs:main", "hypnotoad.scripts.hypnotoad_geqdsk:main")
     S.assume("the frame analysis is syntactic and conservative about aliasing through views; it does not follow arrays into callees (each listed callee is analysed on its own) nor into scipy/numpy")
